@@ -325,6 +325,16 @@ def zeros(
     # Save requested number of zeros
     samples_requested = samples
 
+    if samples == 0 or num_zeros == 0:
+        if samples > 0:
+            logging.warning(
+                "Unable to get number of zero samples requested"
+                " Requested: %d but obtained: %d.",
+                samples_requested,
+                0,
+            )
+        return np.empty((0, data.ndims), dtype=int)
+
     # First determine the number of samples to take accounting for some will be
     # nonzeros and discarded.
     ntmp = np.ceil(samples * data_size / num_zeros)
@@ -463,6 +473,8 @@ def stratified(
         nonzero_weights *= data.nnz / num_nonzeros
 
     zero_subs = zeros(data, nz_idx, num_zeros, over_sample_rate, with_replacement=True)
+    # We may obtain fewer zeros than requested
+    num_zeros = zero_subs.shape[0]
     zero_vals = np.zeros((num_zeros,))
     data_nonzero_count = np.prod(data.shape) - data.nnz
     zero_weights = np.ones((num_zeros,))
